@@ -106,9 +106,25 @@ type ESDescriptor struct {
 }
 
 func DecodeDescriptor(sr bits.SliceReader, maxNrBytes int) (Descriptor, error) {
+	if maxNrBytes > sr.NrRemainingBytes() {
+		maxNrBytes = sr.NrRemainingBytes()
+	}
 	if maxNrBytes < 2 {
 		return nil, fmt.Errorf("descriptor size %d too small", maxNrBytes)
 	}
+	// Decode from a reader of its own, so that a malformed descriptor can neither read beyond maxNrBytes
+	// nor leave an error in sr (the callers fall back to keeping the bytes as unknown data)
+	startPos := sr.GetPos()
+	sub := bits.NewFixedSliceReader(sr.ReadBytes(maxNrBytes))
+	desc, err := decodeDescriptor(sub, maxNrBytes)
+	if err != nil {
+		return nil, err
+	}
+	sr.SetPos(startPos + sub.GetPos())
+	return desc, nil
+}
+
+func decodeDescriptor(sr bits.SliceReader, maxNrBytes int) (Descriptor, error) {
 	tag := sr.ReadUint8()
 	if sr.AccError() != nil {
 		return nil, sr.AccError()
